@@ -10,7 +10,7 @@ import (
 
 func init() {
 	register(&propDef{
-		ID: "C01",
+		ID:          "C01",
 		Explanation: "Decides, for ALL sites in the current source: every dynamic string that reaches an HTML text/attribute sink — in the runtime library (SSA classification of every written operand in packages templ, templ/runtime, templ/safehtml) and in every statement the generator can emit (GEM: emission paths of generator.go parsed as Go) — passes through html.EscapeString, or is a constant / safe alphabet / a listed trusted field; attribute-value sinks sit between matching literal quotes; templ.EscapeString is html.EscapeString. NOT decided: an HTML5 tokenizer's behaviour on the output (trusted base: html.EscapeString escapes & < > \" '), attribute names arriving as spread-map keys, user-constructed ComponentScript values.",
 		Assumptions: []string{"html.EscapeString escapes & < > \" ' and leaves everything else unchanged", "generated code is what generator.go emits (committed _templ.go files are covered separately in the thorough tier)"},
 		Trusted:     []string{"go/types", "x/tools go/packages, go/ssa", "html.EscapeString"},
@@ -20,18 +20,18 @@ func init() {
 
 // sinkContext: functions whose writes are NOT HTML text/attribute sinks, with the reason (frozen table).
 var nonHTMLWriters = map[string]string{
-	modPath + "/runtime.replace":                  "implements the JavaScript string escaper itself; its tables are checked by C03.R1",
-	modPath + "/safehtml.SanitizeStyleValue":      "implements the CSS string-token escaper itself; its arms are checked by C05.R6",
-	modPath + ".SafeScriptInline":                 "builds JavaScript for a <script> body (raw-text element), not HTML text/attribute; C03.R3 covers it",
-	modPath + "/runtime.(Buffer).WriteString":     "forwarding method of the output buffer type",
-	modPath + "/runtime.(Buffer).Write":           "forwarding method of the output buffer type",
-	modPath + ".Raw$1":                            "templ.Raw: documented unsafe API, the caller vouches for the HTML",
-	modPath + "/runtime.WriteString":              "writes a generator-produced literal (G-LIT) or the development text file's copy of it (C16)",
-	modPath + ".WriteWatchModeString":             "deprecated development-mode literal writer (C16)",
-	modPath + ".renderCSSItemsToBuilder":          "writes CSS rules into a <style> element: operand must be SafeCSS (checked here as TYPE)",
-	modPath + ".(CSSHandler).ServeHTTP":           "serves text/css, not HTML: operand must be SafeCSS (checked here as TYPE)",
-	modPath + ".writeStrings":                     "forwarding wrapper: its call sites are checked instead",
-	modPath + "/safehtml.SanitizeStyleValue$1":    "",
+	modPath + "/runtime.replace":               "implements the JavaScript string escaper itself; its tables are checked by C03.R1",
+	modPath + "/safehtml.SanitizeStyleValue":   "implements the CSS string-token escaper itself; its arms are checked by C05.R6",
+	modPath + ".SafeScriptInline":              "builds JavaScript for a <script> body (raw-text element), not HTML text/attribute; C03.R3 covers it",
+	modPath + "/runtime.(Buffer).WriteString":  "forwarding method of the output buffer type",
+	modPath + "/runtime.(Buffer).Write":        "forwarding method of the output buffer type",
+	modPath + ".Raw$1":                         "templ.Raw: documented unsafe API, the caller vouches for the HTML",
+	modPath + "/runtime.WriteString":           "writes a generator-produced literal (G-LIT) or the development text file's copy of it (C16)",
+	modPath + ".WriteWatchModeString":          "deprecated development-mode literal writer (C16)",
+	modPath + ".renderCSSItemsToBuilder":       "writes CSS rules into a <style> element: operand must be SafeCSS (checked here as TYPE)",
+	modPath + ".(CSSHandler).ServeHTTP":        "serves text/css, not HTML: operand must be SafeCSS (checked here as TYPE)",
+	modPath + ".writeStrings":                  "forwarding wrapper: its call sites are checked instead",
+	modPath + "/safehtml.SanitizeStyleValue$1": "",
 }
 
 // trustedFields: struct fields whose content is produced by templ itself for exactly this position.
